@@ -31,6 +31,12 @@ def run(ctx, focus='C11'):
     for i in range(ctx.scale(50, 300)):
         pws, ngram, mode, maxlen = ct.gen_training(rng)
         asize = rng.choice([100, 100, 2, 3])
+        if i == 0:
+            # whatever the seed: a word-like list whose transition table has dead ends below the highest level (the search
+            # falls back to a cheaper first transition), enumerated with one shared memo table
+            pws = ['anna', 'annan', 'nana', 'banana', 'bandana', 'anna', 'nan', 'ana', 'banana', 'bananas', 'ban', 'band', 'bands',
+                   'sand', 'sands', 'and']
+            ngram, mode, maxlen, asize = 3, 'wordlike', 21, 100
         try:
             al, alphabet = ct.build(pws, ngram, asize, maxlen)
         except ZeroDivisionError:
